@@ -129,7 +129,11 @@ pub fn diff_model_ext(mem: &mut Memvid, model: &Model, ro: bool, at: &str, allow
                     }
                 }
                 if let Some(x) = &f.extra {
-                    if &fr.extra_metadata != x {
+                    // the library may add keys of its own (e.g. extractous_metadata): what the caller
+                    // gave must be there unchanged, and no ACL key may appear from nowhere
+                    let given_ok = x.iter().all(|(k, v)| fr.extra_metadata.get(k) == Some(v));
+                    let no_new_acl = fr.extra_metadata.keys().filter(|k| k.starts_with("acl_")).all(|k| x.contains_key(k));
+                    if !(given_ok && no_new_acl) {
                         out.push((vec!["C08"], "frame-extra-metadata", format!("[{at}] frame {} extra metadata {:?}, model {:?}", f.id, fr.extra_metadata, x)));
                     }
                 }
@@ -186,5 +190,22 @@ pub fn diff_model_ext(mem: &mut Memvid, model: &Model, ro: bool, at: &str, allow
                 }
             }
         }
+    // C08: frame_by_uri returns the newest active version carrying the uri
+    if !allow_extra {
+        let mut newest: std::collections::BTreeMap<String, u64> = Default::default();
+        for f in model.frames.iter().filter(|f| f.st == St::Active) {
+            newest.insert(f.uri_str(), f.id);
+        }
+        for (uri, id) in newest.iter().take(60) {
+            match mem.frame_by_uri(uri) {
+                Ok(fr) => {
+                    if fr.id != *id {
+                        out.push((vec!["C08"], "frame-by-uri-newest", format!("[{at}] frame_by_uri({uri:?}) returned frame {} ({:?}), the newest active frame with that uri is {id}", fr.id, fr.status)));
+                    }
+                }
+                Err(e) => out.push((vec!["C08"], "frame-by-uri-newest", format!("[{at}] frame_by_uri({uri:?}) failed: {}; the model has active frame {id} under it", errs(&e)))),
+            }
+        }
+    }
     (out.into_iter().map(|(props, oracle, msg)| Mis { props, oracle, msg }).collect(), compared)
 }
